@@ -56,7 +56,7 @@ def make_cases(seed, tier):
 def do_chunk(chunk):
     acc = common.Acc()
     w = rt.vw(FL)
-    setup = [rt.obj_line(0, align=2, fill="r", seed=4), "ledger 1", "preerrno 2"]
+    setup = [rt.obj_line(0, align=2, fill="r", seed=4), "ledger 1", "preerrno %d" % rt.stale_errno(len(chunk[0]["rb"] or b"") + chunk[0]["count"] % 7 + len(chunk))]
     lines = []
     for c in chunk:
         a = (c["prefix"], c["count"], c["rb"], c["nr"])
